@@ -270,7 +270,8 @@ func (a Arg) value(t *refssz.Type) (any, error) {
 
 // stepOut is the outcome of one accessor invocation on a live library state.
 type stepOut struct {
-	post       any // model state after the invocation
+	near       bool // a set row that wrote the stored value with one field changed
+	post       any  // model state after the invocation
 	fail       *report.Failure
 	nontrivial bool
 	mutates    bool   // the accessor is a writer (whether or not this call changed anything)
@@ -414,6 +415,15 @@ func (e *env) step(lib common.BeaconState, pre any, ch *Chain, args []Arg) (out 
 			nv, err := vals[0].value(l.t)
 			if err != nil {
 				return harness("bad value argument for a %s: %v", l.t, err)
+			}
+			if vals[0].U > 0 && l.t.Kind == refssz.KContainer && len(l.t.Fields) > 0 {
+				// "near" write: the stored value with exactly ONE of its fields changed (an update that corrects a
+				// single field — all other fields, any of which an implementation might use as an "unchanged" key, stay)
+				cur := append([]any{}, l.v.([]any)...)
+				fi := int((vals[0].U - 1) % uint64(len(l.t.Fields)))
+				cur[fi] = perturb(l.t.Fields[fi].T, cur[fi])
+				nv = cur
+				out.near = true
 			}
 			if eqVal(l.t, nv, l.v) {
 				nv = perturb(l.t, nv)
